@@ -142,6 +142,17 @@ def judge(case):
     if why: return sig("wrong_result"), why
     if int(x.uint()) != a or x.nbits != n: return sig("operand_mutated"), f"left operand now {x!r}"
     if isinstance(y, Bits) and int(y.uint()) != b: return sig("operand_mutated"), f"right operand now {y!r}"
+    # the result is a value of its own: changing it in place must not change later results
+    if r is x or r is y: return sig("result_aliases_operand"), "the result object is one of the operands"
+    r @= (val ^ 1) if rw > 1 or True else val
+    try:
+      r2 = call(f)
+    except Exception as ex:
+      return sig("unexpected_exception"), f"second evaluation: {type(ex).__name__}: {ex}"
+    why = _ok_bits(r2, rw, val)
+    if why: return sig("result_shared_between_calls"), f"after modifying an earlier result in place, the operation returns: {why}"
+    if int(x.uint()) != a or (isinstance(y, Bits) and int(y.uint()) != b):
+      return sig("result_aliases_operand"), "modifying the result changed an operand"
     return None
 
   if op == "invert":
